@@ -340,6 +340,10 @@ func c01Lanes(w *mon.W, idx int) {
 func c01Zoo(w *mon.W, idx int) {
 	r := w.Rng
 	words := gen.ZooBitmap(r, 1+idx%40)
+	if idx%10 == 7 {
+		words = gen.RunBitmap(r, 140+idx%280) // runs of empty / full / random words with lengths on and next to powers of two
+		w.Bucket("bitmap/run-structured")
+	}
 	if c01Check(w, words) {
 		w.Sample(func() interface{} { return mon.D{"nwords": len(words), "first_words": truncW(words, 4)} })
 	}
